@@ -1,0 +1,258 @@
+//! Verification hooks (cargo feature `verif`, off by default).
+//!
+//! Nothing in this module changes what the library computes. It lets an external harness
+//!  * count and bound engine steps (so that a diverging search is a reportable outcome),
+//!  * decide the order in which hash-ordered collections are iterated at the places where
+//!    that order can influence the result (constraint store, substitution extensions,
+//!    domain store keys).
+//!
+//! With no chooser installed every hooked iteration keeps its native (hash) order.
+use crate::engine::Engine;
+use crate::lterm::{LTerm, LTermInner};
+use crate::lvalue::LValue;
+use crate::state::Constraint;
+use crate::user::User;
+use std::cell::{Cell, RefCell};
+use std::rc::Rc;
+
+/// Payload of the panic raised when the step budget is exhausted.
+#[derive(Debug, Clone, Copy)]
+pub struct BudgetExceeded;
+
+pub type Chooser = Box<dyn FnMut(&'static str, usize) -> usize>;
+
+thread_local! {
+    static CHOOSER: RefCell<Option<Chooser>> = RefCell::new(None);
+    static BUDGET: Cell<u64> = Cell::new(u64::MAX);
+    static STEPS: Cell<u64> = Cell::new(0);
+    static SCOPE: Cell<&'static str> = Cell::new("");
+}
+
+/// Called at the top of every engine step.
+#[inline]
+pub fn tick() {
+    STEPS.with(|s| s.set(s.get().wrapping_add(1)));
+    BUDGET.with(|b| {
+        let left = b.get();
+        if left != u64::MAX {
+            if left == 0 {
+                std::panic::panic_any(BudgetExceeded);
+            }
+            b.set(left - 1);
+        }
+    });
+}
+
+/// Sets the number of engine steps allowed from now on (`u64::MAX` = unlimited).
+pub fn set_budget(steps: u64) {
+    BUDGET.with(|b| b.set(steps));
+}
+
+pub fn budget_left() -> u64 {
+    BUDGET.with(|b| b.get())
+}
+
+/// Number of engine steps taken on this thread since the last `reset_steps`.
+pub fn steps() -> u64 {
+    STEPS.with(|s| s.get())
+}
+
+pub fn reset_steps() {
+    STEPS.with(|s| s.set(0));
+}
+
+pub fn install_chooser(chooser: Chooser) {
+    CHOOSER.with(|c| *c.borrow_mut() = Some(chooser));
+}
+
+pub fn remove_chooser() {
+    CHOOSER.with(|c| *c.borrow_mut() = None);
+}
+
+pub fn chooser_installed() -> bool {
+    CHOOSER.with(|c| c.borrow().is_some())
+}
+
+/// Names the code region whose iterations are being chosen; restored on drop.
+pub struct ScopeGuard(&'static str);
+
+pub fn scope(name: &'static str) -> ScopeGuard {
+    ScopeGuard(SCOPE.with(|s| s.replace(name)))
+}
+
+impl Drop for ScopeGuard {
+    fn drop(&mut self) {
+        SCOPE.with(|s| s.set(self.0));
+    }
+}
+
+pub fn current_scope() -> &'static str {
+    SCOPE.with(|s| s.get())
+}
+
+fn choose(site: &'static str, arity: usize) -> usize {
+    // The chooser is taken out while it runs so that a re-entrant call cannot alias it.
+    let taken = CHOOSER.with(|c| c.borrow_mut().take());
+    match taken {
+        Some(mut f) => {
+            let pick = f(site, arity);
+            CHOOSER.with(|c| {
+                let mut slot = c.borrow_mut();
+                if slot.is_none() {
+                    *slot = Some(f);
+                }
+            });
+            assert!(pick < arity, "verif chooser picked {} of {}", pick, arity);
+            pick
+        }
+        None => 0,
+    }
+}
+
+/// Orders `items` canonically by `key` and then lets the chooser pick the iteration order:
+/// `n - 1` choices of arity `n, n - 1, .., 2`; all-zero picks keep the canonical order.
+/// Without a chooser the items are returned untouched.
+pub fn order<T, K: Ord, F: FnMut(&T) -> K>(mut items: Vec<T>, key: F) -> Vec<T> {
+    if !chooser_installed() || items.len() < 2 {
+        return items;
+    }
+    items.sort_by_cached_key(key);
+    let site = current_scope();
+    let mut out = Vec::with_capacity(items.len());
+    while items.len() > 1 {
+        let pick = choose(site, items.len());
+        out.push(items.remove(pick));
+    }
+    out.push(items.pop().unwrap());
+    out
+}
+
+/// Order-preserving numeric encoding of a term (variables by id, not by name).
+pub fn term_key<U: User, E: Engine<U>>(t: &LTerm<U, E>) -> Vec<i128> {
+    fn go<U: User, E: Engine<U>>(t: &LTerm<U, E>, out: &mut Vec<i128>) {
+        match t.as_ref() {
+            LTermInner::Var(id, _) => {
+                out.push(0);
+                out.push(id.raw() as i128);
+            }
+            LTermInner::Val(LValue::Bool(b)) => {
+                out.push(1);
+                out.push(*b as i128);
+            }
+            LTermInner::Val(LValue::Number(n)) => {
+                out.push(2);
+                out.push(*n as i128);
+            }
+            LTermInner::Val(LValue::Char(c)) => {
+                out.push(3);
+                out.push(*c as i128);
+            }
+            LTermInner::Val(LValue::String(s)) => {
+                out.push(4);
+                out.push(s.len() as i128);
+                out.extend(s.bytes().map(|b| b as i128));
+            }
+            LTermInner::Empty => out.push(5),
+            LTermInner::Cons(head, tail) => {
+                out.push(6);
+                go(head, out);
+                go(tail, out);
+            }
+            LTermInner::Compound(object) => {
+                out.push(7);
+                compound_key(object.as_ref(), out);
+            }
+            LTermInner::User(_) => out.push(8),
+            LTermInner::Projection(p) => {
+                out.push(9);
+                go(p, out);
+            }
+        }
+    }
+    fn compound_key<U: User, E: Engine<U>>(
+        object: &dyn crate::compound::CompoundObject<U, E>,
+        out: &mut Vec<i128>,
+    ) {
+        let name = object.type_name();
+        out.push(name.len() as i128);
+        out.extend(name.bytes().map(|b| b as i128));
+        for child in object.children() {
+            match child.as_term() {
+                Some(term) => go(term, out),
+                None => {
+                    out.push(10);
+                    compound_key(child, out);
+                }
+            }
+        }
+        out.push(-1);
+    }
+    let mut out = vec![];
+    go(t, &mut out);
+    out
+}
+
+/// Canonical key of a stored constraint: its kind, then its operands.
+pub fn constraint_key<U: User, E: Engine<U>>(c: &Rc<dyn Constraint<U, E>>) -> Vec<i128> {
+    use crate::relation::diseq::DisequalityConstraint;
+    let mut key = vec![];
+    if let Some(tree) = c.downcast_ref::<DisequalityConstraint<U, E>>() {
+        key.push(0);
+        let mut entries: Vec<(Vec<i128>, Vec<i128>)> = std::ops::Deref::deref(tree.smap_ref())
+            .iter()
+            .map(|(k, v)| (term_key(k), term_key(v)))
+            .collect();
+        entries.sort();
+        for (k, v) in entries {
+            key.extend(k);
+            key.push(-2);
+            key.extend(v);
+            key.push(-3);
+        }
+        return key;
+    }
+    let kind: i128 = {
+        #[cfg(feature = "clpfd")]
+        {
+            use crate::relation::clpfd::*;
+            if c.is::<ltefd::LessThanOrEqualFdConstraint<U, E>>() {
+                1
+            } else if c.is::<plusfd::PlusFdConstraint<U, E>>() {
+                2
+            } else if c.is::<minusfd::MinusFdConstraint<U, E>>() {
+                3
+            } else if c.is::<timesfd::TimesFdConstraint<U, E>>() {
+                4
+            } else if c.is::<diseqfd::DiseqFdConstraint<U, E>>() {
+                5
+            } else if c.is::<distinctfd::DistinctFdConstraint<U, E>>() {
+                6
+            } else if c.is::<distinctfd::DistinctFd2Constraint<U, E>>() {
+                7
+            } else {
+                100
+            }
+        }
+        #[cfg(not(feature = "clpfd"))]
+        {
+            100
+        }
+    };
+    #[cfg(feature = "clpz")]
+    let kind: i128 = {
+        use crate::relation::clpz::*;
+        if c.is::<plusz::PlusZConstraint<U, E>>() {
+            8
+        } else if c.is::<timesz::TimesZConstraint<U, E>>() {
+            9
+        } else {
+            kind
+        }
+    };
+    key.push(kind);
+    for operand in c.operands() {
+        key.extend(term_key(&operand));
+        key.push(-2);
+    }
+    key
+}
